@@ -95,6 +95,27 @@ class CGen:
         self.conns[k] = {"phase": 2, "user": user}
         return k
 
+    def open_expect_refused(self, user, keep=False):
+        """a connection that tries to IDENTIFY with a name that is taken: it must be told USERNAME_IN_USE (the model decides);
+        it sends nothing afterwards and hangs up (at once, or when the caller says so: keep=True)"""
+        k = self.next_k
+        self.next_k += 1
+        self.ops.append({"t": "open", "k": k, "conc": []})
+        self.ops.append({"t": "send", "k": k, "bytes": sl.frame("CONNECT", [("version", 1), ("heartbeat_interval", 0)]).hex(), "script": [],
+                         "conc": [("frames", k, [])]})
+        self.ops.append({"t": "send", "k": k, "bytes": sl.frame("IDENTIFY", [("username", user)]).hex(), "script": [],
+                         "conc": [("frames", k, ["EIdentify %d %d true" % (k, UNUM[user])])], "ident": [k, user], "expect_refused": True})
+        if not keep:
+            self.ops.append({"t": "hangup", "k": k, "script": [], "conc": [("hangup", k)]})
+        return k
+
+    def hangup_plain(self, k):
+        self.ops.append({"t": "hangup", "k": k, "script": [], "conc": [("hangup", k)]})
+
+    def expire(self, ms):
+        """virtual time passes: every request sent at least request_timeout ago and still unanswered is dropped by the server"""
+        self.ops.append({"t": "advance", "ms": ms, "conc": [], "expire": True})
+
     def send(self, k, reqs, script=()):
         data = b"".join(x[0] for x in reqs)
         self.ops.append({"t": "send", "k": k, "bytes": data.hex(), "script": list(script), "conc": [("frames", k, [x[1] for x in reqs])],
@@ -253,6 +274,8 @@ def act_term(a):
         return "AFrames %d [%s]" % (a[1], "; ".join(a[2]))
     if a[0] == "hangup":
         return "AHangup %d" % a[1]
+    if a[0] == "expire":
+        return "AExpire %d %d" % (a[1], a[2])
     return "ARelease %d %s" % (a[1], b(a[2]))
 
 
@@ -266,11 +289,27 @@ def cfg_term(cfg):
 def case_term(case, ob, explained=False):
     """Coq boolean: some schedule of the model explains the observation of this history"""
     if "ops" not in ob:
-        return "false"
+        return "0"
     xops = []
     gone = []
+    sent_at, answered = {}, set()       # (conn, id) -> virtual ms at which the request was written; answered requests
+    timeout = case["cfg"].get("request_timeout_ms", 3600000)
     for op, o in zip(case["ops"], ob["ops"]):
-        acts = op.get("conc", [])
+        acts = list(op.get("conc", []))
+        for rq in op.get("reqs", []):
+            sent_at[(rq["k"], rq["id"])] = o.get("t_start", 0)
+        if op.get("expire"):
+            # the requests whose time-out falls into this stretch of virtual time, in the order of their deadlines
+            due = sorted((ts, kid) for kid, ts in sent_at.items() if kid not in answered and ts + timeout <= o.get("t_end", 0))
+            acts += [("expire", kid[0], kid[1]) for ts, kid in due]
+            for ts, kid in due:
+                answered.add(kid)
+        for k, v in o["conns"].items():
+            for f in v["frames"]:
+                if "undecodable" not in f and any(fd["pname"] == "id" for fd in sl.cg.schema()[f["kind"]][2]):
+                    i = srvmon.fget(f, "id")
+                    if i is not None:
+                        answered.add((int(k), i))
         for a in acts:
             if a[0] == "hangup" and a[1] not in gone:
                 gone.append(a[1])
@@ -382,6 +421,7 @@ def cleanup_family(r, thorough):
             g.send(c, [g.bcast(c, chs[1])])
         g.release(n, r.choice(["ok", "err"]))
         g.settle()
+        g.open_expect_refused(who)      # the second holder is alive: the name is taken
         if r.random() < 0.6:
             g.hangup(k2)
             g.settle()
@@ -491,6 +531,69 @@ def acl_family(r, thorough):
         g.audit()
         g.probes()
         cases.append(g.case("acl"))
+    return cases
+
+
+def timeout_family(r, thorough):
+    """request time-outs: a request suspended in a modulator call (holding a channel lock or not) or waiting for a lock is
+    dropped where it stands when request_timeout expires; its lock is given back, requests waiting behind it proceed;
+    what it had already changed stays (a JOIN dropped in its announcement remains a membership in both views)"""
+    cases = []
+    for i in range(12 if thorough else 4):
+        cfg = cfg_for(r, r.choice([("fwd-event",), ("fwd-broadcast-payload", "fwd-event")]))
+        cfg["request_timeout_ms"] = 5000
+        g = CGen(r, cfg)
+        a, bb, c = g.open("alice"), g.open("bob"), g.open("carol")
+        ch = r.choice(CHANS)
+        g.send(a, [g.join(a, ch)])
+        if i % 2 == 0:
+            g.send(bb, [g.join(bb, ch)])
+        n1, n2 = g.park(), g.park()
+        first = r.choice(["join", "leave", "bcast"])
+        if first == "join":
+            g.send(c, [g.join(c, ch)], [{"park": n1}])
+        elif first == "leave":
+            g.send(a, [g.leave(a, ch)], [{"park": n1}])
+        else:
+            g.send(a, [g.bcast(a, ch)], [{"park": n1}])
+        g.ops.append({"t": "advance", "ms": r.choice([1000, 3000]), "conc": []})
+        k = r.choice([a, bb, c])
+        g.send(k, [r.choice([g.join, g.leave, g.members])(k, ch)], [{"park": n2}])
+        g.expire(r.choice([2500, 4500, 6000]))
+        g.expire(6000)
+        g.release(n1, "ok")
+        g.release(n2, "ok")
+        g.settle()
+        g.audit()
+        g.probes()
+        cases.append(g.case("timeout"))
+    return cases
+
+
+def refused_identify_family(r, thorough):
+    """a connection whose IDENTIFY is refused (the name is taken) stays connected and silent: it receives nothing of what
+    is routed to the name's holder, and when the holder goes away the name is free again"""
+    cases = []
+    for i in range(6 if thorough else 2):
+        g = CGen(r, cfg_for(r))
+        a, bb = g.open("alice"), g.open("bob")
+        ch = r.choice(CHANS)
+        g.send(a, [g.join(a, ch)])
+        g.send(bb, [g.join(bb, ch)])
+        x = g.open_expect_refused("bob", keep=True)
+        g.send(a, [g.bcast(a, ch)])
+        g.send(a, [g.leave(a, ch, ob="bob")]) if i % 2 else g.send(a, [g.bcast(a, ch)])
+        n = g.park()
+        g.hangup(bb, [{"park": n}] if i % 3 == 0 else [])
+        g.release(n, "ok")
+        g.settle()
+        b2 = g.open("bob")                         # the holder is gone: the name is free again
+        g.send(b2, [g.join(b2, ch)])
+        g.send(a, [g.bcast(a, ch)])
+        g.hangup_plain(x)
+        g.audit()
+        g.probes()
+        cases.append(g.case("refused_identify"))
     return cases
 
 
@@ -626,7 +729,7 @@ def random_family(r, thorough):
 
 
 def histories(r, thorough):
-    return (namesake_family(r, thorough) + waiting_join_hangup_family(r, thorough) + acl_family(r, thorough) + orphan_family(r, thorough) + parked_join_family(r, thorough) + cleanup_family(r, thorough)
+    return (namesake_family(r, thorough) + waiting_join_hangup_family(r, thorough) + acl_family(r, thorough) + timeout_family(r, thorough) + refused_identify_family(r, thorough) + orphan_family(r, thorough) + parked_join_family(r, thorough) + cleanup_family(r, thorough)
             + owner_leave_family(r, thorough) + overlap_join_family(r, thorough) + random_family(r, thorough))
 
 
@@ -668,14 +771,14 @@ def monitor(case, obs):
     for t, (op, o) in enumerate(ops):
         for rq in op.get("reqs", []):
             reqs[(rq["k"], rq["id"])] = rq
+            rq["sent_op"] = t
             if rq["kind"] == "SET_CHAN_ACL":
                 acl_touched.add(rq["ch"])
             if rq["kind"] == "JOIN" and rq.get("who"):
                 rq["sent_at"], rq["ack_at"] = t, None
                 join_sent.setdefault((rq["who"], rq["ch"]), []).append(rq)
-        for m in o.get("mod", []):
-            if m.get("call") == "event" and bytes.fromhex(m["kind"]) == b"MEMBER_LEFT" and m.get("nid") and m.get("channel"):
-                left_at.setdefault((bytes.fromhex(m["nid"]).decode("latin1").split("@")[0], bytes.fromhex(m["channel"]).decode("latin1")), []).append(t)
+        # (a MEMBER_LEFT call seen by the modulator is only an attempt: the request may still be dropped before it removes
+        #  anybody; departures are taken from what the CLIENTS are told: LEAVE_ACK and MEMBER_LEFT events)
         parked_now = bool(o.get("parked")) or was_parked
         if op["t"] == "hangup":
             end_session(op["k"], t)
@@ -689,8 +792,17 @@ def monitor(case, obs):
                     continue
                 n = fn(f)
                 if n == "IDENTIFY_ACK":
-                    user[k] = fg(f, "nid").decode("latin1").split("@")[0]
+                    name = fg(f, "nid").decode("latin1").split("@")[0]
+                    holders = [k2 for k2 in live_sessions(name) if k2 != k]
+                    if holders:
+                        viol.append(("C07", f"connection {k} was assigned the identity {name} while connection {holders[0]}, still alive, holds it", t))
+                    user[k] = name
                     start[k] = t
+                elif n == "ERROR" and fg(f, "reason") == b"USERNAME_IN_USE" and op.get("ident") and op["ident"][0] == k:
+                    if not [k2 for k2 in live_sessions(op["ident"][1]) if k2 != k]:
+                        viol.append(("C07", f"IDENTIFY as {op['ident'][1]} on connection {k} refused with USERNAME_IN_USE although no live connection holds that name", t))
+                elif n in ("EVENT",) and k not in user:
+                    viol.append(("C06", f"connection {k}, which never completed its handshake, was sent an EVENT", t))
                 elif n == "JOIN_ACK":
                     rq = reqs.get((k, fg(f, "id")))
                     if rq is not None:
@@ -705,6 +817,7 @@ def monitor(case, obs):
                     u, ch = user.get(k), fg(f, "channel").decode("latin1")
                     if u is None:
                         viol.append(("C01", f"MESSAGE on {ch} delivered to connection {k}, which has not authenticated", t))
+                        viol.append(("C06", f"connection {k}, which never completed its handshake, was sent a MESSAGE on {ch}", t))
                         continue
                     # a JOIN for (u, ch) sent since this session began justifies the delivery unless the user has demonstrably
                     # left since that JOIN took effect (its acknowledgement; departures announced in the same op are ambiguous)
@@ -802,8 +915,11 @@ def monitor(case, obs):
                         nrep[(int(k), i)] = nrep.get((int(k), i), 0) + 1
                         if (int(k), i) not in reqs:
                             viol.append(("C12", f"frame {fn(f)} with id {i} that connection {k} never sent", t))
+    expire_ops = [t for t, (op, o) in enumerate(ops) if op.get("expire")]
     for (k, i), rq in sorted(reqs.items()):
         n = nrep.get((k, i), 0)
+        if n == 0 and any(rq.get("sent_op", 10 ** 9) < t for t in expire_ops):
+            continue      # dropped at its request time-out (K13b, reported by C13's own check): no reply is the known behaviour
         if n > 1:
             viol.append(("C12", f"{rq['kind']} id={i} on connection {k} was answered {n} times", len(ops) - 1))
         if n == 0 and k not in gone:
